@@ -81,8 +81,9 @@ func ctor(field string) string {
 	return "\"" + field + "\"%string"
 }
 
+func init() { factFns["C01"] = factsC01 }
+
 func factsC01() {
-	fmt.Fprintln(&out, "\n(* ---- C01: bus/net/message.go, type/basic/basic.go ---- *)")
 	emitN("f_Magic", uint64(net.Magic))
 	emitN("f_MaxPayloadSize", uint64(net.MaxPayloadSize))
 	emitN("f_Version", uint64(net.Version))
